@@ -9,10 +9,11 @@ import Driver.Cursor
 import Driver.FPCore
 import Driver.Storage
 import Driver.Analysis
+import Driver.Boundary
 import Driver.Sim
 open Fpy Fpy.Drv
 
-def handlers : List (String → Option (P String)) := [handleNum, handleCheck, handleExact, handleLiteral, handleEnc, handleAbsFmt, handleCursor, handleFPCore, handleStorage, handleAnalysis]
+def handlers : List (String → Option (P String)) := [handleNum, handleCheck, handleExact, handleLiteral, handleEnc, handleAbsFmt, handleCursor, handleFPCore, handleStorage, handleAnalysis, handleBoundary]
 
 def handleLine (line : String) : String :=
   match handleLangLine line with
